@@ -45,6 +45,7 @@ class ClassTable:
     def __init__(self):
         self.mro = {}
         self.bases = {}
+        self.modqn = {}
         self.cls = {}
 
     def name(self, c):
@@ -53,6 +54,7 @@ class ClassTable:
             self.mro[n] = [class_name(b) for b in type.mro(c)] if isinstance(c, type) else [n]
             self.bases[n] = [class_name(b) for b in getattr(c, "__bases__", ())]
             self.cls[n] = c
+            self.modqn[n] = "%s:%s" % (getattr(c, "__module__", "builtins"), getattr(c, "__qualname__", n))
             for b in type.mro(c)[1:]:
                 self.name(b)
         return n
@@ -267,11 +269,13 @@ def resolve_class(name, table=TABLE):
     raise LookupError(name)
 
 
-def real_type(t, table=TABLE, make_td=None):
+def real_type(t, table=TABLE, make_td=None, reverse=False, reverse_keys=False):
     """Build a typing object from an abstract type. `make_td(req, opt)` builds anonymous
-    TypedDicts (supplied by the caller so that this module stays independent of monkeytype)."""
+    TypedDicts (supplied by the caller so that this module stays independent of monkeytype).
+    reverse=True builds the same type along another construction order (union members and
+    TypedDict keys in the opposite order)."""
     k = t["k"]
-    sub = lambda x: real_type(x, table, make_td)  # noqa: E731
+    sub = lambda x: real_type(x, table, make_td, reverse, reverse_keys)  # noqa: E731
     if k == "any":
         return typing.Any
     if k == "cls":
@@ -297,10 +301,11 @@ def real_type(t, table=TABLE, make_td=None):
     if k == "tuplevar":
         return typing.Tuple[sub(t["a"][0]), ...]
     if k == "union":
-        return typing.Union[tuple(sub(x) for x in sorted(t["u"], key=canon))]
+        return typing.Union[tuple(sub(x) for x in sorted(t["u"], key=canon, reverse=reverse))]
     if k == "td":
-        req = {f["n"]: sub(f["a"][0]) for f in t["u"] if f["k"] == "req"}
-        opt = {f["n"]: sub(f["a"][0]) for f in t["u"] if f["k"] == "opt"}
+        flds = sorted(t["u"], key=canon, reverse=reverse_keys)
+        req = {f["n"]: sub(f["a"][0]) for f in flds if f["k"] == "req"}
+        opt = {f["n"]: sub(f["a"][0]) for f in flds if f["k"] == "opt"}
         return make_td(req, opt)
     raise ValueError("cannot build type of kind %r" % (k,))
 
@@ -324,6 +329,8 @@ def tla_term(t):
 def tla_class_table(table=TABLE, names=None, which="mro"):
     """TLA+ text of the function  class name -> sequence of MRO names (or direct base names)."""
     names = sorted(table.mro) if names is None else sorted(names)
+    if which == "modqn":
+        return " @@\n    ".join("%s :> %s" % (tla_str(n), tla_str(table.modqn[n])) for n in names)
     src = table.mro if which == "mro" else table.bases
     items = ["%s :> <<%s>>" % (tla_str(n), ", ".join(tla_str(b) for b in src[n])) for n in names]
     return " @@\n    ".join(items)
